@@ -3,7 +3,7 @@ from checks import actors_common as ac
 
 THEOREMS = ['Poupool.C13.timed_stops', 'Poupool.C13.timed_accumulates', 'Poupool.C13.swim_relay_only_in_running_phases', 'Poupool.C13.swim_start_is_guarded', 'Poupool.C13.filtration_knows_swim_halted', 'Poupool.C13.swim_guard_allows_wintering', 'Poupool.C13.swim_guard_open_modes_partial', 'Poupool.C01.glue_swim', 'Poupool.C01.swim_off_when_halted']
 COMPOSE = ['Poupool.ComposeProps.filtSwim_discipline', 'Poupool.ComposeProps.filtSwim_halted_when_served', 'Poupool.ComposeProps.filtration_never_list', 'Poupool.ComposeProps.filtSwim_composed_never_list', 'Poupool.ComposeProps.filtSwim_demo']
-TIMING = ['Poupool.Timing.swim_polls']
+TIMING = ['Poupool.Timing.swim_polls', 'Poupool.Timing.swim_timed_run']
 MODULE = "Poupool.Properties.C13"
 
 
